@@ -23,8 +23,9 @@ RULE = ("exhaustive: every entry of platonic(5), archimedean(13), catalan(13), j
 ASSUMPTIONS = [
     "tolerances are part of the statements: plane distances <= 1e-9, |volume-1| <= 1e-9, squared lengths / squared "
     "in-radius equal within 2e-9 relative (the JSON holds 16-17 digit decimals)",
-    "textbook (V,E,F) and face census of the 5+13+13 solids are entered by hand (Spec/Textbook.lean and TEXTBOOK "
-    "below, two independent copies compared with each other by the driver op c18.textbook)",
+    "textbook (V,E,F) and face census of the 5+13+13 solids and (V,E,F) of the 92 Johnson solids by number are entered "
+    "by hand (Spec/Textbook.lean and TEXTBOOK/JOHNSON below, two separately typed copies compared with each other by "
+    "the driver op c18.textbook); the Johnson counts go beyond the literal clauses of the property (DESIGN §7 C18 S)",
     "the Lean table theorems are about the JSON decimals (exact at scale 10^18) with the face lists the implementation "
     "produced in the generating run as a certificate; that get_shape(name) returns exactly those vertices is checked "
     "by the oracle on every run",
@@ -361,6 +362,13 @@ FILE_TO_ID = {fn: lean_id for lean_id, fn, _ in TABLES}
 WHICH = {"platonic": 0, "archimedean": 1, "catalan": 2, "johnson": 3}
 
 
+def johnson_key(short):
+    """'J5', 'J05' -> 'J5' (the JSON writes the numbers with and without a leading zero)"""
+    if isinstance(short, str) and len(short) >= 2 and short[0] == "J" and short[1:].isdigit() and short.isascii():
+        return "J%d" % int(short[1:])
+    return None
+
+
 def s2codes(s):
     return L([ord(ch) for ch in s])
 
@@ -592,7 +600,8 @@ def eval_entry(ctx, tables_json, entries, fams, lean_id, name):
         ctx.disagree("c18.check:counts", case, [lean["V"], lean["E2"], lean["F"], info])
     if "vol6" in info and not ctx.close_enough(lean["vol6"] / 1e54, info["vol6"], 6.0):
         ctx.disagree("c18.check:vol6", case, [lean["vol6"] / 1e54, info["vol6"]])
-    r = ctx.driver.Q("c18.table", WHICH.get(lean_id, 4), s2codes(name), *entry_tokens(item["verts"], faces))
+    r = ctx.driver.Q("c18.table", WHICH.get(lean_id, 4), s2codes(name), s2codes(item["short"]),
+                     *entry_tokens(item["verts"], faces))
     lean_table_ok, lean_textbook_ok = r[0], r[1]
     # the certificate clause itself (this is what the kernel proves per entry)
     if not lean["polyhedron"]:
@@ -641,6 +650,16 @@ def eval_entry(ctx, tables_json, entries, fams, lean_id, name):
             ctx.fail("TabulatedGSDShapeFamily.get_shape:regular-faces:" + lean_id,
                      "%s[%r] has a face that is not a regular polygon" % (cls, name), case,
                      [hf["reg_defect"], lean["edges"], lean["diagonals"]])
+    if lean_id == "johnson":
+        tb = JOHNSON.get(johnson_key(item["short"]))
+        got = (hf["V"], hf["E"], hf["F"])
+        cert = (lean["V"], lean["E2"] // 2, lean["F"])
+        if tb is None or got != tb or cert != tb:
+            ctx.fail("TabulatedGSDShapeFamily.get_shape:johnson-counts:johnson",
+                     "JohnsonFamily[%r] (%s) does not have the vertex/edge/face counts of that Johnson solid" % (
+                         name, item["short"]), case, {"textbook": tb, "hull": got, "faces": cert})
+        if bool(lean_textbook_ok) != (tb is not None and cert == tb):
+            ctx.disagree("c18.table:johnson-counts", case, [lean_textbook_ok, cert, tb])
     if lean_id == "catalan":
         if hf["inradius_spread"] > TOL or hf["inradius_min"] <= 0 or not lean["insphere"]:
             ctx.fail("TabulatedGSDShapeFamily.get_shape:insphere:catalan",
@@ -653,7 +672,7 @@ def eval_entry(ctx, tables_json, entries, fams, lean_id, name):
     elif lean_id == "catalan":
         want = want and bool(lean_textbook_ok) and bool(lean["unitvol"]) and bool(lean["insphere"])
     elif lean_id == "johnson":
-        want = want and bool(lean["edges"] and lean["diagonals"])
+        want = want and bool(lean["edges"] and lean["diagonals"]) and bool(lean_textbook_ok)
     if bool(lean_table_ok) != want:
         ctx.disagree("c18.table:obligation", case, [lean_table_ok, want])
 
@@ -729,7 +748,6 @@ def eval_family(ctx, tables_json, fams, lean_id):
                      {"table": lean_id, "name": k, "kind": "family"}, k)
             break
     # B: the model's iteration over the same keys
-    recs = L([])  # placeholder (see model_family)
     m_names, m_iter, _ = model_family(ctx, [(n, "ConvexPolyhedron", False) for n in file_names], "")
     if m_names != file_names or [i for _, (c, i) in m_iter] != list(range(len(file_names))) \
             or any(c != 0 for _, (c, i) in m_iter):
@@ -924,7 +942,7 @@ def doi_probes(ctx):
 
 def textbook_copies(ctx):
     """the two hand-entered copies (Spec/Textbook.lean, TEXTBOOK above) must agree"""
-    for which, lean_id in enumerate(("platonic", "archimedean", "catalan")):
+    for which, lean_id in enumerate(("platonic", "archimedean", "catalan", "johnson")):
         r = ctx.driver.Q("c18.textbook", which)
         pos = 1
         rows = {}
@@ -939,10 +957,10 @@ def textbook_copies(ctx):
             rows[name] = (v, e, f, cen)
             if not cons:
                 ctx.disagree("c18.textbook:inconsistent-row", {"kind": "textbook", "name": name}, [v, e, f, cen])
-        if rows != TEXTBOOK[lean_id]:
+        mine = TEXTBOOK[lean_id] if lean_id in TEXTBOOK else {k: v + ({},) for k, v in JOHNSON.items()}
+        if rows != mine:
             ctx.disagree("c18.textbook", {"kind": "textbook", "table": lean_id},
-                         sorted(set(rows) ^ set(TEXTBOOK[lean_id])) or
-                         [n for n in rows if rows[n] != TEXTBOOK[lean_id][n]])
+                         sorted(set(rows) ^ set(mine)) or [n for n in rows if rows[n] != mine[n]])
 
 
 def mutant_certificates(ctx, entries, tables_json):
@@ -1019,6 +1037,12 @@ def run(ctx):
         for name in list(fams[lean_id].names):
             ctx.case({"table": lean_id, "name": name, "kind": "entry"})
             eval_entry(ctx, tables_json, entries, fams, lean_id, name)
+        if lean_id == "johnson":
+            shorts = sorted(str(johnson_key(it["short"])) for it in entries[lean_id])
+            if shorts != sorted(JOHNSON):
+                ctx.fail("TabulatedGSDShapeFamily.names:johnson-numbers:johnson",
+                         "the short_name fields of JohnsonFamily are not J1 ... J92 once each",
+                         {"table": lean_id, "kind": "family"}, sorted(set(shorts) ^ set(JOHNSON))[:10])
         # textbook solids that are missing from the table
         if lean_id in TEXTBOOK:
             for tname in TEXTBOOK[lean_id]:
@@ -1039,8 +1063,8 @@ def run(ctx):
 
 def replay(ctx, payload):
     case = payload.get("case", payload)
-    if isinstance(case, dict) and "broken" in payload and "case" not in payload:
-        case = {}
+    if not isinstance(case, dict) or "kind" not in case or case.get("kind") == "no-failing-input-found":
+        case = {}   # nothing specific to re-evaluate: run everything
     fams, tables_json, entries = _load(ctx)
     kind = case.get("kind")
     if kind == "entry" and case.get("table") in fams:
